@@ -302,6 +302,19 @@ func (ir *ifdReader) ParseRationalU(t Tag) [2]uint32 {
 // ParseUint32 parses a Uint32 value.
 // Embedded tag with value length 4 bytes.
 func (ir *ifdReader) ParseUint32(t Tag) uint32 {
+	if !t.IsEmbedded() {
+		// An array (ISOSpeedRatings as SHORT x 3, say): the slot holds the offset
+		// of the values, not a value. The first value is the one reported.
+		if t.IsType(tag.TypeLong) || t.IsType(tag.TypeShort) {
+			if buf, err := ir.readTagValue(t); err == nil && len(buf) >= 4 {
+				if t.IsType(tag.TypeShort) {
+					return uint32(t.ByteOrder.Uint16(buf[:2]))
+				}
+				return t.ByteOrder.Uint32(buf[:4])
+			}
+		}
+		return 0
+	}
 	switch t.Type {
 	case tag.TypeLong:
 		return uint32(t.ValueOffset)
